@@ -20,14 +20,24 @@ def U(i, kind='page', links=(), host='a.test', rto=0, rejected=0, disallowed=0, 
     return d
 
 
-def scenario(name, urls, opts=None, N=1, start=(1,), robots=None, benign=1):
+def scenario(name, urls, opts=None, N=1, start=(1,), robots=None, benign=1, split=0, dburi=0):
     o = dict(DEFAULT_OPTS)
     o.update(opts or {})
-    return dict(name=name, urls=urls, opts=o, N=N, start=list(start), robots=robots or {}, benign=benign)
+    return dict(name=name, urls=urls, opts=o, N=N, start=list(start), robots=robots or {}, benign=benign,
+                split=split, dburi=dburi)
 
 
 def hosts_of(scn):
     return sorted(set(u['host'] for u in scn['urls']))
+
+
+def origin_label(u):
+    p = u.get('port', 80)
+    return u['host'] if p == 80 else '%s:%d' % (u['host'], p)
+
+
+def origins_of(scn):
+    return sorted(set(origin_label(u) for u in scn['urls']))
 
 
 def header(scn):
@@ -39,12 +49,14 @@ def header(scn):
     links = []
     for u in urls:
         for l in u['links']:
-            links.append([u['id'], l['to'], 1 if l.get('inline') else 0])
+            links.append([u['id'], l['to'], 1 if (l.get('inline') or l.get('frame')) else 0])
+    ors = origins_of(scn)
     rk = []
-    for h in hs:
-        rk.append(scn['robots'].get(h, {'kind': 'missing'})['kind'])
-    return dict(U=n, H=len(hs), start=scn['start'], links=links,
+    for o in ors:
+        rk.append(scn['robots'].get(o, {'kind': 'missing'})['kind'])
+    return dict(U=n, H=len(hs), OR=len(ors), start=scn['start'], links=links,
                 host=[hs.index(by[i]['host']) + 1 for i in range(1, n + 1)],
+                origin=[ors.index(origin_label(by[i])) + 1 for i in range(1, n + 1)],
                 kind=[by[i]['kind'] if by[i]['kind'] in ('page', 'redirect') else 'other' for i in range(1, n + 1)],
                 rto=[by[i].get('rto', 0) for i in range(1, n + 1)],
                 rejected=[by[i]['rejected'] for i in range(1, n + 1)],
@@ -62,7 +74,7 @@ def site_desc(scn):
         urls.append(d)
     hs = hosts_of(scn)
     robots = {}
-    for h in hs:
+    for h in origins_of(scn):
         r = scn['robots'].get(h)
         if r is None:
             robots[h] = {'kind': 'missing'}
@@ -80,8 +92,10 @@ def argv(scn, db, directory):
     a = []
     for s in scn['start']:
         u = by[s]
-        a.append('http://%s%s' % (u['host'], u['path']))
-    a += ['--html-parser', 'html5lib', '--delete-after', '-q', '--database', db, '-P', directory,
+        a.append('http://%s%s' % (origin_label(u), u['path']))
+    a += ['--html-parser', 'html5lib', '--delete-after', '-q', '-P', directory]
+    a += ['--database-uri', 'sqlite:///' + db] if scn.get('dburi') else ['--database', db]
+    a += [
           '--waitretry', '0', '--tries', str(o['tries']), '--max-redirect', str(o['maxredir']),
           '--level', str(o['level']), '--reject-regex', '/rej/', '--timeout', '30']
     if o['recursive']:
@@ -137,7 +151,18 @@ def c01_catalogue(quick):
     two = [U(1, links=[3, 4]), U(2, host='b.test', path='/s2', links=[4, 3]), U(3, links=[1]), U(4, host='b.test')]
     out.append(scenario('two-starts', two, start=(1, 2), N=2))
     out.append(scenario('span-hosts', two, dict(spanhosts=1), N=2))
+    # frames: an embedded DOCUMENT (inline and linked at once) with its own objects and links
+    fr = [U(1, links=[dict(to=2, frame=1), 6]), U(2, links=[dict(to=3, inline=1), 4]), U(3), U(4, links=[dict(to=5, frame=1)]),
+          U(5), U(6)]
+    for rc, pq, lv in ((0, 1, 0), (1, 1, 0), (1, 1, 1), (1, 0, 0)):
+        out.append(scenario('frames-R%d-P%d-L%d' % (rc, pq, lv), fr, dict(recursive=rc, pagereq=pq, level=lv), N=1))
+    # the answer to a page arrives in two parts (head, body) while another worker's redirect is handled in between
+    rd2 = [U(1, links=[2, 3, 4]), U(2, kind='redirect', rto=5), U(3, links=[6]), U(4, links=[7]), U(5), U(6), U(7)]
+    out.append(scenario('split-answers-redirect-N2', rd2, N=2, split=1))
+    # one page with more links than the table batch size (1000)
     if not quick:
+        many = [U(1, links=list(range(2, 1103)))] + [U(i) for i in range(2, 1103)]
+        out.append(scenario('many-links', many, dict(level=1), N=2))
         wide = [U(1, links=[2, 3, 4, 5]), U(2, links=[6]), U(3, links=[6]), U(4, links=[6, 7]), U(5, links=[7]),
                 U(6, links=[1]), U(7, links=[2])]
         for n in (1, 2, 3, 4):
@@ -151,7 +176,7 @@ def c03_catalogue(quick):
     small = [U(1, links=[2, 3]), U(2, links=[4]), U(3, links=[2]), U(4)]
     chain = [U(1, links=[2]), U(2, links=[3]), U(3)]
     out = [scenario('crash-small-N1', small, N=1), scenario('crash-chain-N1', chain, N=1),
-           scenario('crash-small-N2', small, N=2)]
+           scenario('crash-small-N2', small, N=2), scenario('crash-small-dburi', small, N=1, dburi=1)]
     if not quick:
         diamond = [U(1, links=[2, 3]), U(2, links=[4]), U(3, links=[5]), U(4, links=[6]), U(5, links=[4]), U(6)]
         pr = [U(1, links=[2, dict(to=3, inline=1)]), U(2, links=[dict(to=4, inline=1), 5]), U(3), U(4), U(5)]
@@ -184,6 +209,13 @@ def c18_catalogue(quick):
                     out.append(scenario('%s-T%d-R%d-A%d' % (name, T, R, auth), urls,
                                         dict(tries=T, maxredir=R, auth=auth), N=1, benign=0))
     out.append(scenario('error-forever-N2', loops['error-forever'], dict(tries=2), N=2, benign=0))
+    # robots.txt itself keeps failing: the retry limit must still end the work on every URL of that origin
+    for T in (1, 2):
+        out.append(scenario('robots-error-forever-T%d' % T, [U(1, links=[2]), U(2)], dict(robots=1, tries=T), N=1,
+                            robots={'a.test': {'kind': 'error500'}}, benign=0))
+    out.append(scenario('robots-error-second-origin', [U(1, links=[2, 3]), U(2, host='b.test'), U(3)],
+                        dict(robots=1, tries=2, spanhosts=1), N=1,
+                        robots={'a.test': {'kind': 'missing'}, 'b.test': {'kind': 'error500'}}, benign=0))
     return out
 
 
@@ -209,6 +241,18 @@ def c20_catalogue(quick):
     hop2 = [U(1, links=[2]), U(2, kind='redirect', rto=3), U(3, host='b.test')]
     out.append(scenario('robots-redirect-to-new-origin', hop2, dict(robots=1), N=1,
                         robots={'a.test': {'kind': 'rules'}, 'b.test': {'kind': 'rules'}}))
+    # two origins on ONE host name (different ports) with different rules: the key must include the port
+    ports = [U(1, links=[2, 3, 4]), U(2, port=8080, path='/priv/p2', disallowed=1), U(3, port=8080, links=[2]),
+             U(4, path='/priv/p4')]
+    for n in (1, 2):
+        out.append(scenario('robots-two-ports-N%d' % n, ports, dict(robots=1), N=n,
+                            robots={'a.test': {'kind': 'rules', 'disallow': ['/none/']}, 'a.test:8080': {'kind': 'rules'}}))
+    out.append(scenario('robots-two-ports-rev', [U(1, links=[2, 3]), U(2, port=8080, path='/priv/p2'),
+                                                 U(3, path='/priv/p3', disallowed=1)], dict(robots=1), N=1,
+                        robots={'a.test': {'kind': 'rules'}, 'a.test:8080': {'kind': 'missing'}}))
+    # nofollow declared AFTER links in the document (head: <link rel=next> before the <meta>)
+    late = [U(1, links=[2, 3]), U(2, nofollow=1, nofollow_late=1, links=[4, dict(to=5, inline=1)]), U(3), U(4), U(5)]
+    out.append(scenario('robots-nofollow-late', late, dict(robots=1, pagereq=1), N=1, robots=rules))
     # large robots.txt: the rule that matters comes after 4096 bytes
     big = {'a.test': {'kind': 'rules', 'disallow': [], 'extra': ('# padding\n' * 500) + 'Disallow: /priv/\n'}}
     out.append(scenario('robots-large-file', [U(1, links=[2, 3]), U(2, disallowed=1), U(3)], dict(robots=1), N=1, robots=big))
@@ -235,6 +279,11 @@ def c02_catalogue(quick):
             for lv in (0, 1, 2):
                 out.append(scenario('offer-S%d-P%d-L%d' % (strong, pq, lv), offer,
                                     dict(strong=strong, pagereq=pq, level=lv), N=1))
+    # an embedded document: its own links are ordinary links again (need recursion), its objects are requisites
+    fr = [U(1, links=[dict(to=2, frame=1)]), U(2, links=[dict(to=3, inline=1), 4, dict(to=5, frame=1)]), U(3), U(4),
+          U(5, links=[6]), U(6)]
+    for rc, pq, np in ((0, 1, 0), (1, 1, 0), (0, 0, 0)):
+        out.append(scenario('frames-scope-R%d-P%d' % (rc, pq), fr, dict(recursive=rc, pagereq=pq), N=1))
     out.append(scenario('offer-N2', offer, dict(pagereq=1), N=2))
     out.append(scenario('offer-span', offer, dict(spanhosts=1, pagereq=1), N=1))
     out.append(scenario('offer-norecursion', offer, dict(recursive=0, pagereq=1), N=1))
